@@ -119,6 +119,38 @@ class ConsumerClient(Client):
         w.stats["intent:herald_session"] += 1
         return self.queued()
 
+    def mzi_intent(self, sid):
+        """An interferometer whose *phase* is a Parameter, held by a live
+        consumer while the phase is changed: |U| stays the same entry-wise at
+        the first beam splitter, the output statistics do not."""
+        r, w = self.rng, self.w
+        n = r.randint(2, 3)
+        cid, pid = w.new_id("c"), w.new_id("p")
+        st = [0] * n
+        st[r.randrange(n)] += 1
+        if r.random() < 0.5:
+            st[r.randrange(n)] += 1
+        self.queue = [
+            {"op": "new_param", "value": round(r.uniform(0, 3), 3), "out": pid,
+             "role": "phi"},
+            {"op": "new_circuit", "n": n, "out": cid},
+            {"op": "bs", "c": cid, "m1": 0, "m2": 1, "r": 0.5},
+            {"op": "ps", "c": cid, "m": r.randint(0, 1), "phi": {"p": pid}},
+            {"op": "bs", "c": cid, "m1": 0, "m2": 1,
+             "r": r.choice([0.5, 0.3])},
+            {"op": "cons_set", "kind": self.kind, "s": sid, "attr": "circuit",
+             "ref": cid, "ref_c": cid},
+            {"op": "cons_set", "kind": self.kind, "s": sid,
+             "attr": "input_state", "value": st},
+            self.use_op(sid),
+            {"op": "param_set", "p": pid, "value": round(r.uniform(0, 6), 3)},
+            self.use_op(sid),
+            {"op": "param_set", "p": pid, "value": round(r.uniform(0, 6), 3)},
+            self.use_op(sid),
+        ]
+        w.stats["intent:mzi_phase"] += 1
+        return self.queued()
+
     def state_for_n(self, n):
         s = [0] * n
         for _ in range(self.rng.randint(0, 2)):
@@ -242,6 +274,8 @@ class SamplerUser(ConsumerClient):
         meta = w.meta["sam"][sid]
         if r.random() < 0.04:
             return self.variant_intent(sid)
+        if r.random() < 0.03 and len(w.pool["p"]) < 8:
+            return self.mzi_intent(sid)
         if cfg.get("big_n") and r.random() < 0.05:
             return self.herald_session(sid)
         k = r.choice(["read", "read", "sample", "sample_n", "sample_n",
@@ -436,6 +470,8 @@ class QuickUser(ConsumerClient):
         cid = meta.get("circuit")
         if r.random() < 0.04:
             return self.variant_intent(sid)
+        if r.random() < 0.03 and len(w.pool["p"]) < 8:
+            return self.mzi_intent(sid)
         k = r.choice(["read", "read", "sample", "sample", "sample_o",
                       "sample_o", "circuit", "circuit", "state", "pnr",
                       "ps", "ps_add", "ps_add", "edit_circuit", "edit_circuit",
